@@ -21,7 +21,7 @@ Step(e) ==
       [] e.ev = "Special" ->
            IF ~e.valid /\ e.hex = -1 /\ e.r = -1 /\ e.g = -1 /\ e.b = -1 /\ e.css = <<>> /\ e.tcdefault THEN {}
            ELSE {Dev("C16.special", e.which, <<e.valid, e.hex, e.r>>)}
-      [] e.ev = "Find" -> {Dev("C16.findcolor", p, <<e.c, e.kind, e.idx>>) : p \in FindWrong(e, 2)}
+      [] e.ev = "Find" -> {Dev("C16.findcolor", p, <<e.c, e.kind, e.idx>>) : p \in FindWrong(e, 5000)}
       [] OTHER -> {}
 
 Report(e, devs) == \A d \in devs : PrintT("@@V " \o ToJson(d @@ [l |-> l, ev |-> e.ev]))
